@@ -9,6 +9,11 @@ use ldpc_toolbox::sparse::SparseMatrix;
 """
 
 
+# quick tier: two-call histories for one pair per arithmetic family and schedule (flooding A-Min* costs 300 s each)
+REPZ = ("Phif64", "Tanhf32", "Minstarapproxf64", "Minstarapproxi8JonesPartialHardLimitDeg1Clip", "Aminstari8",
+        "HLPhif32", "HLTanhf64", "HLMinstarapproxf32", "HLAminstarf64", "HLMinstarapproxi8PartialHardLimit", "HLAminstari8")
+
+
 def build(tier, seed):
     impls = arith.implementations()
     fam = [families.HQ[0]] if tier == "quick" else [families.HQ[0], families.HQ[1], families.HQ[2]]
@@ -22,6 +27,8 @@ def build(tier, seed):
         mac = "c10_havoc_flooding" if sched == "flooding" else "c10_havoc_layered"
         for name, n, rows in fam:
             for lim in limits:
+                if tier == "quick" and lim >= 1 and "Aminstar" in ty and sched == "flooding":
+                    continue  # symbolic argmin => symbolic message destinations: > 8 GB with two decodes (thorough tier)
                 hn = "c10_havoc_%s_%s_l%d" % (impl, name, lim)
                 w = 2.0 if lim == 0 else (12.0 if kind == "i8" else 25.0) * lim
                 items.append((Harness(hn, {"pair": "%s::Decoder<%s>" % (sched, ty), "matrix": name, "iteration_limit": lim,
@@ -34,6 +41,8 @@ def build(tier, seed):
     for impl, ty, sched in impls:
         kind = arith.type_info(ty)["kind"]
         stubs = "with_table_stubs" if kind == "i8" else "with_surrogate_stubs"
+        if tier == "quick" and (impl not in REPZ):
+            continue
         for name, n, rows in fam[:1]:
             for la in limas:
                 hn = "c10_zero_%s_%s_a%d" % (impl, name, la)
@@ -51,7 +60,8 @@ def build(tier, seed):
             if kind == "float":
                 if t["base"] == "Aminstar":
                     continue  # no scratch field at all
-                seqs, degs = seqs_all, [(3, 2)]
+                # measured 100-390 s each: the four orders are split over the two widths
+                seqs, degs = ([(0, 0), (1, 1)] if t["f"] == "f64" else [(1, 0), (0, 1)]), [(3, 2)]
             elif not t["amin"]:
                 seqs, degs = [(1, 1), (1, 0)], [(3, 2)]
             else:
